@@ -1006,6 +1006,11 @@ fn repo_target() -> PathBuf {
 }
 
 pub fn build_agent(sink: &mut Sink) -> Option<PathBuf> {
+    build_agent_profile(sink, false)
+}
+
+/// the agent binary as it ships (`--release`: no debug assertions, no overflow checks) or as a dev build
+pub fn build_agent_profile(sink: &mut Sink, release: bool) -> Option<PathBuf> {
     let repo = std::env::var("VERIF_REPO").unwrap_or_else(|_| "/repo".into());
     let st = Command::new("cargo")
         .args([
@@ -1018,13 +1023,14 @@ pub fn build_agent(sink: &mut Sink) -> Option<PathBuf> {
             "--target-dir",
         ])
         .arg(repo_target())
+        .args(if release { vec!["--release"] } else { vec![] })
         .env("CARGO_NET_OFFLINE", "true")
         .env_remove("RUSTFLAGS")
         .stdout(Stdio::null())
         .stderr(Stdio::piped())
         .output();
     match st {
-        Ok(o) if o.status.success() => Some(repo_target().join("debug/bgpfu-junos-agent")),
+        Ok(o) if o.status.success() => Some(repo_target().join(if release { "release/bgpfu-junos-agent" } else { "debug/bgpfu-junos-agent" })),
         Ok(o) => {
             sink.notes.push(format!(
                 "agent build failed: {}",
